@@ -26,7 +26,7 @@ META = {
                "(state that survives one operation is what matters: any leak shows after one step)",
     "assumptions": ["a history influences later parses only through state the tracker can see or through the compared results"],
 }
-WALL_BUDGET = {"quick": 600, "thorough": 3 * 3600}
+WALL_BUDGET = {"quick": 480, "thorough": 3 * 3600}
 
 A_STRUCTS = [('1005', dict(mode=('uniform', 1)), 0), ('1005', dict(mode=('uniform', 1)), -7), ('1004', dict(mode=('uniform', 2)), 0),
              ('1004', dict(mode=('uniform', 2)), -3), ('4072', None, 6), ('1230', dict(flags=5), 0), ('1029', dict(mode=('uniform', 2)), 0),
@@ -45,12 +45,8 @@ def b_structs(tier):
         fam.setdefault(key, []).append(i)
     out = []
     for key, members in sorted(fam.items()):
-        pick = members if tier != 'quick' else ([members[0]] if key[0] != 'std' else members)
+        pick = members if tier != 'quick' else ([members[0], members[-1]] if key[0] != 'std' else members)
         out += pick
-    if tier == 'quick':
-        std = [i for i in out if not i.startswith('4076') and structs.kind_of(i) != 'msm']
-        keep = set(std[::4]) | {i for i in out if i.startswith('4076') or structs.kind_of(i) == 'msm'} | {'1005', '1004', '1230', '1029', '1059', '1302', '1023'}
-        out = [i for i in out if i in keep]
     return out
 
 
